@@ -301,14 +301,30 @@ theorem sequences_start_partial (h : Params) (bs : Bytes) (seqs : List Seq)
   | nil => rw [a] at hlen; simp at hlen
   | cons r rs => exact ⟨r, by rw [a]; simp, e⟩
 
-/-- and in every case `start ≤ end` fails only through finding C04-1: here is the exact content of
-`start` for the end-row-only sequence. **Finding C04-2, pinned**: `set_address 0x1000;
-end_sequence` is reported as the sequence `[0, 0x1000)` although its only row is at 0x1000. -/
+/-- **Finding C04-2, pinned**: `set_address 0x1000; end_sequence` is reported as the sequence
+`[0, 0x1000)` although its only row is at 0x1000. -/
 theorem sequences_start_counterexample :
     sequences hdr4 [0, 9, 2, 0, 0x10, 0, 0, 0, 0, 0, 0,  0, 1, 1] =
       .ok [{ start := 0, «end» := 0x1000,
              instructions := [0, 9, 2, 0, 0x10, 0, 0, 0, 0, 0, 0,  0, 1, 1] }] := by
   decide
+
+/-- **Ordered bounds** — partial: `start ≤ end` for every reported sequence inside which no
+`end_sequence` was swallowed (finding C04-1 is the only way to get `start > end`). -/
+theorem sequences_ordered_partial (h : Params) (bs : Bytes) (seqs : List Seq)
+    (hs : sequences h bs = .ok seqs) (s : Seq) (hmem : s ∈ seqs)
+    (hne : NoHiddenEnd (trace h s.instructions)) : s.start ≤ s.end := by
+  obtain ⟨_, _, _, h3⟩ := sequences_spec h bs seqs hs
+  obtain ⟨rows, last, a, _, c, d, e⟩ := h3 s hmem
+  have hm := monotone_observed_partial h s.instructions hne
+  unfold resume at a
+  rw [a] at hm
+  obtain ⟨h1, h2⟩ := monoObserved_last _ rows last 0 c hm
+  rw [d, e]
+  cases rows with
+  | nil => simp
+  | cons r rs => exact h2 r List.mem_cons_self
+
 
 /-- non-vacuity: a program with two sequences and trailing rows -/
 example : (sequences hdr4 (bytes4 ++ [1, 1])).map (fun ss => ss.map (fun s => (s.start, s.end))) =
